@@ -239,7 +239,7 @@ func checkC05(c *core.Ctx) {
 	// unhooked map iteration elsewhere?
 	if sites := c05ScanMapRanges(sc.Src); len(sites) > 0 {
 		c.Set("map_range_sites_outside_the_hook", sites)
-		c.NotExhaustive("range over a map outside dict.Keys/Values/KVs: " + strings.Join(sites, ", ") + " (not under the scheduler; covered only by the free-running repeated runs)")
+		c.NotExhaustive("nondeterminism outside the dictionary scheduler (range over a map outside dict.Keys/Values/KVs, goroutines, select, clocks, random numbers, process ids): " + strings.Join(sites, ", ") + " (covered only by the free-running repeated runs)")
 	}
 	progs := c05Programs(c.Thorough())
 	fam := c05DecompositionFamily(c.Thorough())
@@ -463,6 +463,29 @@ func c05ScanMapRanges(src string) []string {
 					for _, nm := range v.Names {
 						mapVars[nm.Name] = true
 					}
+				}
+			}
+			return true
+		})
+		// other sources of nondeterminism the dictionary scheduler does not own: goroutines, select, clocks, random
+		// numbers, process ids, addresses used as values
+		for _, im := range af.Imports {
+			switch strings.Trim(im.Path.Value, "\"") {
+			case "time", "math/rand", "math/rand/v2", "crypto/rand", "unsafe":
+				if !strings.HasPrefix(f, "pkg/dict/order_verif") {
+					sites = append(sites, fmt.Sprintf("%s imports %s", f, im.Path.Value))
+				}
+			}
+		}
+		ast.Inspect(af, func(n ast.Node) bool {
+			switch v := n.(type) {
+			case *ast.GoStmt:
+				sites = append(sites, fmt.Sprintf("%s:%d go statement", f, fset.Position(v.Pos()).Line))
+			case *ast.SelectStmt:
+				sites = append(sites, fmt.Sprintf("%s:%d select statement", f, fset.Position(v.Pos()).Line))
+			case *ast.SelectorExpr:
+				if id, ok := v.X.(*ast.Ident); ok && id.Name == "os" && (v.Sel.Name == "Getpid" || v.Sel.Name == "Getppid") {
+					sites = append(sites, fmt.Sprintf("%s:%d os.%s", f, fset.Position(v.Pos()).Line, v.Sel.Name))
 				}
 			}
 			return true
